@@ -163,8 +163,10 @@ def run(p: Program, rep: Report, tier: str) -> None:
         "the single-range headers and the reader arguments use the same (start, end). R2.3 Range is honoured only when "
         "If-Range is absent or judge_if_range is true, and judge_if_range compares against the expressions the response "
         "emits as ETag / Last-Modified. R2.4 the 400/416 path forwards the exception's status/headers, opens nothing, and 416 "
-        "carries '*/size'. R2.5 (ASGI) every descriptor opened is closed on every exit. NOT decided: that the chunk loops read "
-        "exactly end-start bytes for every chunk_size alignment (integer run-time arithmetic)."
+        "carries '*/size'. R2.5 (ASGI) every descriptor opened is closed on every exit. R2.6 (ASGI fallback sender) with a byte count every "
+        "read is clamped by the remaining count (no fall-back operand) and the loop's stop condition is computed from the count "
+        "bookkeeping. NOT decided: that the chunk loops read exactly end-start bytes for every chunk_size alignment (integer "
+        "run-time arithmetic)."
     )
     rep.assume("header text of the multipart parts is Latin-1/ASCII: one byte per character (boundary is [a-z0-9]{13}, numbers, content type)")
     mixin = p.cls("baize.responses:FileResponseMixin")
@@ -494,3 +496,111 @@ def run(p: Program, rep: Report, tier: str) -> None:
         else:
             rep.violation("R2.5", construct(h, text="open without with"), where(h), f"wsgi {side_h}: the file is opened outside a `with` block (not closed on every exit)")
     rep.require_instances("R2.5", 6)
+
+    # ---------------------------------------------------------------- R2.6 bounded copy loop of the ASGI fallback sender
+    # When a byte count is given, (a) every read asks for min(chunk, <remaining>) where <remaining> is computed from the
+    # count with no fall-back value, and (b) the loop's stop condition is computed from the count bookkeeping - not from a
+    # short read, which also happens exactly at a chunk boundary only AFTER one chunk too many was sent.
+    from ..common import guards_of as _gof, parents as _parents
+    cs = p.cls("baize.asgi.responses:FileResponse").methods.get("create_send_or_zerocopy")
+    fs = None
+    if cs is not None:
+        for nf in cs.nested.values():
+            if len(nf.params) >= 3 and any(isinstance(c, ast.Attribute) and ast.unparse(c) == "os.read" for c in ast.walk(nf.node)):
+                fs = nf
+    if fs is None:
+        rep.undecide("R2.6", "asgi: the fallback sender (nested function of create_send_or_zerocopy calling os.read) was not found")
+    else:
+        rep.analysed(fs.fq)
+        cnt = fs.params[2]
+        derived = {cnt}
+        changed = True
+        while changed:
+            changed = False
+            for n in ast.walk(fs.node):
+                tg, val = [], None
+                if isinstance(n, ast.Assign):
+                    tg, val = [t for t in n.targets if isinstance(t, ast.Name)], n.value
+                elif isinstance(n, (ast.AugAssign, ast.AnnAssign)) and isinstance(n.target, ast.Name):
+                    tg, val = [n.target], n.value
+                if val is None:
+                    continue
+                uses = {x.id for x in ast.walk(val) if isinstance(x, ast.Name)}
+                if isinstance(n, ast.AugAssign) and n.target.id in derived:
+                    continue
+                if uses & derived:
+                    for t in tg:
+                        if t.id not in derived:
+                            derived.add(t.id)
+                            changed = True
+        # counters updated next to a derived length (here += length) are bookkeeping of the count as well
+        for n in ast.walk(fs.node):
+            if isinstance(n, ast.AugAssign) and isinstance(n.target, ast.Name) and {x.id for x in ast.walk(n.value) if isinstance(x, ast.Name)} & derived:
+                derived.add(n.target.id)
+
+        def mentions_derived(e: ast.AST) -> bool:
+            return any(isinstance(x, ast.Name) and x.id in derived for x in ast.walk(e))
+
+        def bounded(node: ast.AST) -> Optional[bool]:
+            for g, pol in _gof(node, fs.node):
+                if isinstance(g, ast.Compare) and isinstance(g.left, ast.Name) and g.left.id == cnt and len(g.ops) == 1 and isinstance(g.comparators[0], ast.Constant) and g.comparators[0].value is None:
+                    if isinstance(g.ops[0], ast.Is):
+                        return not pol
+                    if isinstance(g.ops[0], ast.IsNot):
+                        return pol
+            return None
+
+        reads = [c for c in calls_in(fs, deep=True) if any(isinstance(a, ast.Attribute) and ast.unparse(a) == "os.read" for a in c.args) or ast.unparse(c.func) == "os.read"]
+        n_b = 0
+        for c in reads:
+            b = bounded(c)
+            if b is False:
+                continue  # the 'until end of file' branch: nothing to clamp
+            n_b += 1
+            L = c.args[-1]
+            loop = next((q for q in _parents(c) if isinstance(q, (ast.While, ast.For))), None)
+            defs = [L]
+            if isinstance(L, ast.Name):
+                defs = [n.value for n in ast.walk(loop if loop is not None else fs.node) if isinstance(n, ast.Assign) and any(isinstance(t, ast.Name) and t.id == L.id for t in n.targets)]
+            okc = bool(defs)
+            why = ""
+
+            def none_branch(d: ast.expr) -> ast.expr:
+                """`A if <derived> is None else B` -> B (the branch taken when a count is given)"""
+                if isinstance(d, ast.IfExp) and isinstance(d.test, ast.Compare) and len(d.test.ops) == 1 and mentions_derived(d.test.left) \
+                        and isinstance(d.test.comparators[0], ast.Constant) and d.test.comparators[0].value is None:
+                    return d.orelse if isinstance(d.test.ops[0], ast.Is) else d.body
+                return d
+
+            defs = [none_branch(d) for d in defs]
+            for d in defs:
+                if not (isinstance(d, ast.Call) and isinstance(d.func, ast.Name) and d.func.id == "min" and len(d.args) == 2):
+                    okc, why = False, f"the requested length {ast.unparse(d)[:50]} is not min(chunk size, remaining)"
+                    continue
+                rem = [a for a in d.args if mentions_derived(a)]
+                if not rem:
+                    okc, why = False, "the requested length is not clamped by the remaining byte count"
+                elif any(isinstance(x, (ast.BoolOp, ast.IfExp)) for a in rem for x in ast.walk(a)):
+                    okc, why = False, f"the remaining-count operand of the clamp has a fall-back value ({ast.unparse(rem[0])[:50]}): when nothing remains a full chunk is requested"
+            if okc:
+                rep.ok("R2.6", "asgi fallback sender: with a byte count every read asks for min(chunk size, remaining count)")
+            else:
+                rep.violation("R2.6", construct(fs, text="unclamped read"), where(fs, c), f"asgi: {why}: bytes beyond the requested range can be read and sent (Content-Length no longer matches the body)")
+            # stop condition
+            if isinstance(loop, ast.While):
+                flags = {x.id for x in ast.walk(loop.test) if isinstance(x, ast.Name)}
+                if mentions_derived(loop.test):
+                    rep.ok("R2.6", "asgi fallback sender: the bounded loop tests the count bookkeeping")
+                else:
+                    sets = [n for n in ast.walk(loop) if isinstance(n, ast.Assign) and any(isinstance(t, ast.Name) and t.id in flags for t in n.targets)]
+                    badset = [n for n in sets if not mentions_derived(n.value) and not (isinstance(n.value, ast.Constant) and n.value.value is False) and bounded(n) is not False]
+                    if sets and not badset:
+                        rep.ok("R2.6", "asgi fallback sender: the bounded loop stops when the count bookkeeping says the last piece was read")
+                    else:
+                        n0 = badset[0] if badset else loop
+                        rep.violation("R2.6", construct(fs, text="stop condition independent of the count"), where(fs, n0),
+                                      f"asgi: the bounded copy loop decides to stop from `{ast.unparse(n0.value)[:50] if badset else ast.unparse(loop.test)[:50]}`, which does not depend on the byte count: a range whose length is a multiple of "
+                                      "the chunk size is followed by one more chunk (or an empty final event)")
+        if n_b == 0:
+            rep.undecide("R2.6", "asgi fallback sender: no read under `count is not None`")
+    rep.require_instances("R2.6", 2)
